@@ -1,4 +1,4 @@
-import BfeVerif.C48.Proofs
+import BfeVerif.C48.General
 /-!
   C48 — property theorems.
 
@@ -43,6 +43,26 @@ theorem C48_reactions_understood :
       (pBeforeLocation, true), (pFoundProduct, true), (pAfterLocation, true), (pReadResponse, true)] ∧
     C48.serveHTTPOrder.length = 4 := by decide
 
+/-- **The skeleton is the source's**: in every function the model's skeleton mirrors, the callback points, the labels
+    `response_got` / `send_response` and the calls (findProduct, findCluster, clusterInvoke, RoundTrip, sendResponse,
+    ServeHTTP, prepareForCloseConn / finishRequest, FinishReq, readRequest, serveRequest, deferred finish/close) occur
+    in exactly the order `serveConnR` / `serveRequest` / `serveHTTP` / `clusterInvoke` perform them, and the guards
+    (`!isRedirect && res != nil`, `err != nil || res == nil`, `ret1 == closeDirectly`, the keep-alive conjunction and
+    the loop break) are textually present — re-extracted from the current source on every run.  (Which `return` / `goto`
+    ends each arm is part of `armsT`, see `C48_reactions_understood`.) -/
+theorem C48_skeleton_as_modelled :
+    C48.events =
+      [("serve", ["call:finish", "call:close", "point:Accept", "call:Handshake", "point:Handshake", "call:readRequest",
+          "call:serveRequest"]),
+       ("serveRequest", ["call:ServeHTTP", "call:prepareForCloseConn", "call:finishRequest", "call:FinishReq"]),
+       ("finish", ["point:Finish"]),
+       ("ServeHTTP", ["point:BeforeLocation", "call:findProduct", "point:FoundProduct", "call:findCluster",
+          "point:AfterLocation", "call:clusterInvoke", "label:response_got", "point:ReadResponse", "label:send_response",
+          "call:sendResponse"]),
+       ("clusterInvoke", ["call:Balance", "point:Forward", "call:RoundTrip"]),
+       ("FinishReq", ["point:RequestFinish"])] ∧
+    C48.guards.all (·.2) = true := by decide
+
 /-- HandleHandshake (TLS connections; not driven by the harness) reacts to every verdict exactly like HandleAccept -/
 theorem C48_handshake_like_accept : ∀ v ∈ allVerdicts, armFor pHandshake v = armFor pAccept v := by decide
 
@@ -66,6 +86,32 @@ theorem C48_table_full_false : ¬ C48_table_full := by
   have := h pForward (by decide) vClose (by decide) false (by decide)
   revert this
   decide
+
+/-- is the first applicable stopping verdict on the request path one of the rows of `divergentRows`? -/
+def divergentFirst (ch : Nat → List Elem) : Bool := divergentStop fun pt => specChain (ch pt)
+
+/-- **The table lifted to every configuration**: for EVERY assignment of filter chains (any length, any verdict
+    values, foreign-type elements) to every callback point and EVERY number `n` of pipelined requests, the model of
+    conn.serve interprets only arms it understands, and what the client observes (responses, backend contacts,
+    unread bytes = connection closed) is the documented reaction to the FIRST applicable non-GoOn verdict in callback
+    order (`judge`), unless that first verdict is one of the `divergentRows`.  Composes `C48_order_stop` (each chain
+    acts through `specChain`) with the extracted per-point arms.  Hypothesis: a Response verdict at a request point
+    comes with a response object (otherwise ServeHTTP dereferences nil). -/
+theorem C48_general (n : Nat) (ch : Nat → List Elem)
+    (hwf : ∀ pt, (pt = pBeforeLocation ∨ pt = pFoundProduct ∨ pt = pAfterLocation) →
+      (specChain (ch pt)).ret = vResponse → ∃ j, (specChain (ch pt)).res = some j) :
+    (serveConn n ch).unknown = false ∧
+    (divergentFirst ch = false →
+      judge n ch (serveConn n ch).outs (serveConn n ch).backend (reqBytes * (n - (serveConn n ch).served)) = none) := by
+  have hρ : (fun pt => runChain 0 (ch pt)) = fun pt => specChain (ch pt) := by
+    funext pt; exact C48_order_stop (ch pt)
+  have := goal_all n (fun pt => specChain (ch pt)) hwf
+  simpa only [GoalAt, serveConn, judge, divergentFirst, hρ] using this
+
+/-- non-vacuity of `C48_general`: a three-point configuration with long chains meets the hypotheses and is not
+    divergent -/
+example : divergentFirst (fun pt => if pt = 3 then [.f 1 true, .f 1 false, .f 3 true, .f 4 false] else
+    if pt = 6 then [.f 1 false, .f 2 false] else if pt = 7 then [.f 0 false] else []) = false := by decide
 
 /-- Close before the request is forwarded: nothing is written, no backend is contacted, the second pipelined
     request is never served (concrete rows of the table, for readability). -/
